@@ -1,7 +1,7 @@
 (* C02 — Validity: decisions extend the instance base and stem from an honest input. *)
 From Coq Require Import ZArith List Bool.
 From F3 Require Import Spec SpecProofs.
-From F3 Require Instance InstanceNoPanic Refine RefineNet InstanceQuorum HappyPath QuorumProofs.
+From F3 Require Instance InstanceNoPanic Refine RefineNet RefineRun InstanceQuorum HappyPath HappyInst HappyStep HappyNet QuorumProofs.
 Import ListNotations.
 Open Scope Z_scope.
 
@@ -78,3 +78,49 @@ Theorem c02_happy_decide : forall c, hp_committee c -> forall i v,
              Instance.i_phase (Instance.try_decide c i) = Instance.TERMINATED.
 Proof. intros c (H1 & H2 & H3). apply HappyPath.happy_decide; assumption. Qed.
 Print Assumptions c02_happy_decide.
+
+(* ---- the happy path over the NETWORK of instance models (second sentence of C02) ----
+   every honest member proposes v (at least one tipset above the base); no faulty member casts any vote; no timer fires
+   and every delivery reaches its receiver before the receiver's phase timer expires.  Then, for every committee and
+   every such schedule (any order of starts and deliveries, duplicates, omissions):
+   every vote ever cast is a round-0 vote for v itself -- nobody votes bottom, a prefix or another chain, nobody leaves
+   round 0 -- and whoever decides, decides v. *)
+Theorem c02_happy_network_votes : forall c honest input v,
+  InstanceNoPanic.committee_wf c -> Instance.c_total c <= 65535 -> 0 <= Instance.c_rebro_round c -> (2 <= length v)%nat ->
+  (forall k, honest k = true -> input k = v) ->
+  forall acts x, RefineNet.all_ok c honest (RefineNet.net0 input) acts -> HappyNet.all_happy c (RefineNet.net0 input) acts ->
+  In x (RefineNet.n_votes (RefineNet.nrun c (RefineNet.net0 input) acts)) ->
+  round x = 0%nat /\ vl x = Some v /\ ph x <> CONVERGE.
+Proof. exact HappyNet.happy_votes. Qed.
+Print Assumptions c02_happy_network_votes.
+Theorem c02_happy_network_decision : forall c honest input v,
+  InstanceNoPanic.committee_wf c -> Instance.c_total c <= 65535 -> 0 <= Instance.c_rebro_round c -> (2 <= length v)%nat ->
+  (forall k, honest k = true -> input k = v) ->
+  forall acts k j, RefineNet.all_ok c honest (RefineNet.net0 input) acts -> HappyNet.all_happy c (RefineNet.net0 input) acts ->
+  RefineNet.member c honest k ->
+  Instance.i_term (RefineNet.n_inst (RefineNet.nrun c (RefineNet.net0 input) acts) k) = Some j -> Instance.j_value j = v.
+Proof. exact HappyNet.happy_decision. Qed.
+Print Assumptions c02_happy_network_decision.
+Theorem c02_happy_network_round0 : forall c honest input v,
+  InstanceNoPanic.committee_wf c -> Instance.c_total c <= 65535 -> 0 <= Instance.c_rebro_round c -> (2 <= length v)%nat ->
+  (forall k, honest k = true -> input k = v) ->
+  forall acts k, RefineNet.all_ok c honest (RefineNet.net0 input) acts -> HappyNet.all_happy c (RefineNet.net0 input) acts ->
+  RefineNet.member c honest k ->
+  Instance.i_round (RefineNet.n_inst (RefineNet.nrun c (RefineNet.net0 input) acts) k) = 0.
+Proof. exact HappyNet.happy_round0. Qed.
+Print Assumptions c02_happy_network_round0.
+
+(* non-vacuity: four members with skewed powers, unanimous input, every broadcast delivered to every member (own messages
+   included) in first-in-first-out order and nothing else: the schedule satisfies both hypotheses and all four decide v *)
+Definition hx_cfg := Instance.mkCfg [20000; 16384; 16384; 12767] 65535 5 3 2000 [2000; 3000; 4500] [700; 900; 1100].
+Definition hx_honest := fun _ : nat => true.
+Definition hx_input := fun _ : nat => [1; 2; 3].
+Definition hx_acts := RefineRun.auto_actions hx_cfg hx_input [0; 1; 2; 3] 16.
+Example c02_happy_network_example :
+  InstanceRun.cfg_wfb hx_cfg = true /\
+  RefineRun.all_okb hx_cfg hx_honest (RefineNet.net0 hx_input) hx_acts = true /\
+  HappyNet.all_happyb hx_cfg (RefineNet.net0 hx_input) hx_acts = true /\
+  length hx_acts = 68%nat /\
+  map (fun k => option_map Instance.j_value (Instance.i_term (RefineNet.n_inst (RefineNet.nrun hx_cfg (RefineNet.net0 hx_input) hx_acts) k))) [0; 1; 2; 3]
+    = [Some [1; 2; 3]; Some [1; 2; 3]; Some [1; 2; 3]; Some [1; 2; 3]].
+Proof. vm_compute. repeat split. Qed.
